@@ -1,6 +1,7 @@
 /- htpdrv: one operation per input line, one canonical result line per operation. -/
 import Driver.Prim
 import Driver.Fn
+import Driver.Stream
 
 namespace Driver
 
@@ -14,6 +15,7 @@ def step (s : St) (line : String) : St × String :=
   | "bstr" :: rest => (s, bstrOp rest)
   | "num" :: rest => (s, numOp rest)
   | "fn" :: rest => (s, fnOp rest)
+  | "urlenc" :: rest => (s, urlencOp rest)
   | _ => (s, "bad-op")
 
 partial def loop (h : IO.FS.Stream) (out : IO.FS.Stream) (s : St) : IO Unit := do
